@@ -8,6 +8,10 @@
    excellent/functions init, flows/routers/cases init   builtin.go:145, tests.go:71
         `for name, fn := range builtin { RegisterXFunction(name, fn) }`: RegisterX* stores under the given name.
    excellent/types XObject.Get            object.go:166   keeps the smallest matching name (fix c2f4026).
+   excellent/types spendSize              base.go:203     (fix 1fba51e) takes len(name) + size(value) >= 0 off *budget for every property
+        and returns false as soon as the budget is overdrawn, `*budget >= 0` at the end: whether the budget lasts and what is
+        left when it does are functions of the SUM; after `false` no caller reads the budget (CheckRenderSize, CheckFormatSize,
+        ForEach, ForEachValue all return an error).  The nested call is the cost of the value (same walk, by induction).
    excellent/types XObject.initialize     object.go:248   `if p == "__default__" { x.def = v } else { x.props[p] = v }`.
    flows Contact.MarshalJSON              contact.go:677  `ce.Fields[v.field.Key()] = v.Value`; FieldValues.Set stores
         every value under its field's key, so v.field.Key() is the loop key.
@@ -46,6 +50,7 @@ Definition x (pkg func : string) (ord : nat) (maptype : string) (effs : list eff
 Definition map_range_exceptions : list exception_entry := [
   x "excellent/functions" "init" 0 "map[string]excellent/types.XFunc" [ECallStmt] RRegistration;
   x "flows/routers/cases" "init" 0 "map[string]excellent/types.XFunc" [ECallStmt] RRegistration;
+  x "excellent/types" "spendSize" 0 "map[string]excellent/types.XValue" [EAccumInt; ECallImpure; ELoopCarried; EReturnConst] RMonotoneBudget;
   x "excellent/types" "XObject.Get" 0 "map[string]excellent/types.XValue" [EAssignOuter; EFlagSet; ELoopCarried] RMinMatch;
   x "excellent/types" "XObject.initialize" 0 "map[string]excellent/types.XValue" [EAssignOuter; EMapWriteKey] RKeyGuardedAssign;
   x "flows" "Contact.MarshalJSON" 0 "flows.FieldValues" [EMapWriteOther] RValueKeyedByOwnKey;
